@@ -535,7 +535,14 @@ func genFeedCase(rt *rapid.T) tfCase {
 	}
 	na := rapid.IntRange(1, 9).Draw(rt, "nactions")
 	for i := 0; i < na; i++ {
-		a := tfAction{Do: pick(rt, []string{"term", "drop", "drop", "recreate", "recreate", "feed", "feed", "close", "delete", "write"}, "action"), I: rapid.IntRange(0, 5).Draw(rt, "i"), H: rapid.IntRange(0, 2).Draw(rt, "h")}
+		a := tfAction{Do: pick(rt, []string{"term", "drop", "drop", "recreate", "recreate", "feed", "feed", "close", "delete", "write", "cycle", "cycle"}, "action"), I: rapid.IntRange(0, 5).Draw(rt, "i"), H: rapid.IntRange(0, 2).Draw(rt, "h")}
+		if a.Do == "cycle" {
+			// a collection dropped and created again through one handle, and a feed started on the new
+			// one: the other handles still remember the old collection when they next look it up
+			ci := 1 + a.I%(c.Colls-1)
+			c.Actions = append(c.Actions, tfAction{Do: "drop", I: a.I, H: a.H}, tfAction{Do: "recreate", I: a.I, H: a.H}, tfAction{Do: "feed", I: ci, H: a.H})
+			continue
+		}
 		c.Actions = append(c.Actions, a)
 	}
 	return c
